@@ -1,33 +1,33 @@
 #!/bin/bash
-# Applies each kept seeded change to /repo (working tree only, never committed), runs the property's quick check,
-# reverts, and records which obligation reports it. Output: seeded/RESULTS.tsv
+# Applies each kept seeded change to a SCRATCH COPY of /repo (never to /repo itself), runs the property's quick check
+# against the copy with all outputs redirected, and records which obligations report it and whether the replay produced
+# a failing input on the real (seeded) code. Outputs: seeded/RESULTS.tsv, seeded/REPLAY.tsv
 cd /verif
-# evidence files are rewritten by every check run: keep the ones of the unchanged tree, not of the seeded runs
-rm -rf /tmp/verif_evidence_keep && cp -r evidence /tmp/verif_evidence_keep
+S=/tmp/verif_seed_repo; O=/tmp/verif_seed_out
 : > seeded/RESULTS.tsv
 : > seeded/REPLAY.tsv
 for d in seeded/C*-*; do
-  pid=$(basename $d | cut -d- -f1)
-  if ! git -C /repo apply --check $PWD/$d/patch.diff 2>/dev/null; then echo -e "$(basename $d)\tpatch-does-not-apply" >> seeded/RESULTS.tsv; continue; fi
-  git -C /repo apply $PWD/$d/patch.diff
-  if grep -q "\"property_id\": \"$pid\"" MANIFEST.json && ! python3 -c "import json,sys;m=json.load(open('MANIFEST.json'));sys.exit(0 if any(c['property_id']=='$pid' for c in m['checks']) else 1)"; then :; fi
-  out=$(./check $pid quick 2>&1); rc=$?
-  git -C /repo checkout -- .
-  python3 - "$pid" "$(basename $d)" "$out" >> seeded/REPLAY.tsv <<'PY'
+  seed=$(basename $d); pid=${seed%%-*}
+  rm -rf $S $O; mkdir -p $S $O
+  (cd /repo && git archive HEAD | tar -x -C $S)
+  if ! (cd $S && patch -s -p1 < /verif/$d/patch.diff); then echo -e "$seed\tpatch-does-not-apply" >> seeded/RESULTS.tsv; continue; fi
+  out=$(VERIF_REPO=$S VERIF_OUT_ROOT=$O ./bin/govc check $pid quick 2>&1); rc=$?
+  python3 - "$seed" "$out" >> seeded/REPLAY.tsv <<'PY'
 import json,sys,re,os
-pid,seed,out=sys.argv[1:4]
+seed,out=sys.argv[1:3]
 for m in re.finditer(r"^VIOLATION property=\S+ replay=(\S+)", out, re.M):
     f=m.group(1)
     try:
         d=json.load(open(f))
     except Exception as e:
-        print(f"{seed}\t{os.path.basename(f)}\tunreadable"); continue
+        print(f"{seed}\t{os.path.basename(f)}\t\tbounded-test\t"); continue
     r=d.get("replay") or {}
-    print(f"{seed}\t{d.get('obligation', os.path.basename(f))}\t{d.get('answer','')}\t{r.get('status','')}\t{(r.get('reason','') or '')[:160]}")
+    if "obligation" not in d:
+        print(f"{seed}\t{os.path.basename(f)}\t\tbounded-test\tfailing input inside the bounded test's output"); continue
+    print(f"{seed}\t{d.get('obligation')}\t{d.get('answer','')}\t{r.get('status','')}\t{(r.get('reason','') or '')[:160]}")
 PY
-  viol=$(echo "$out" | grep "^VIOLATION" | sed 's/.*obligation=//' | tr '\n' ';' | cut -c1-400)
-  echo -e "$(basename $d)\texit=$rc\t$viol" >> seeded/RESULTS.tsv
+  viol=$(echo "$out" | grep "^VIOLATION" | sed 's/.*obligation=//; s/^VIOLATION property=[^ ]* replay=[^ ]*bounded[-_]\([a-z_-]*\).json.*/bounded:\1/' | tr '\n' ';' | cut -c1-400)
+  echo -e "$seed\texit=$rc\t$viol" >> seeded/RESULTS.tsv
 done
-rm -rf evidence && cp -r /tmp/verif_evidence_keep evidence && rm -rf /tmp/verif_evidence_keep
-git -C /repo status --short | head -3
+rm -rf $S $O
 cat seeded/RESULTS.tsv
